@@ -235,7 +235,7 @@ class SCQubitsCompiler(GateCompiler):
             zx_coeff = self.params["zx_coeff"][2 * q1]
         else:
             zx_coeff = self.params["zx_coeff"][2 * q1 - 1]
-        area = 0.5
+        area = 0.5 * np.sign(gate.arg_value)
         coeff, tlist = self.generate_pulse_shape(
             args["shape"], args["num_samples"], maximum=zx_coeff, area=area
         )
